@@ -225,6 +225,16 @@ func methodGrid() []MethodCase {
 			out = append(out, MethodCase{Chain: fmt.Sprintf(".decimal(%d,%d)", x.p, x.s), Value: Operand{repr, x.n}}, MethodCase{Chain: fmt.Sprintf(".decimal(%d,%d).string()", x.p, x.s), Value: Operand{repr, x.n}})
 		}
 	}
+	// (D49) integer items of 16 to 19 digits whose nearest double is a power of ten or lies on the other side of
+	// the precision limit: the item is the integer, so it has the digits it is written with
+	for _, n := range []string{"9999999999999999", "99999999999999999", "999999999999999999", "999999999999999936", "-999999999999999999", "1000000000000000000", "9223372036854775807", "-9223372036854775808", "99999999999999995", "9007199254740993", "123456789012345678"} {
+		for _, ps := range [][2]int{{15, 0}, {16, 0}, {17, 0}, {18, 0}, {19, 0}, {20, 2}, {18, -1}, {17, -1}, {18, -2}, {16, -3}, {19, 1}} {
+			for _, repr := range []string{"i64", "num", "str"} {
+				out = append(out, MethodCase{Chain: fmt.Sprintf(".decimal(%d,%d)", ps[0], ps[1]), Value: Operand{repr, n}})
+			}
+			out = append(out, MethodCase{Chain: fmt.Sprintf(".bigint().decimal(%d,%d)", ps[0], ps[1]), Value: Operand{"num", n}}, MethodCase{Chain: fmt.Sprintf(".bigint().decimal(%d,%d)", ps[0], ps[1]), Value: Operand{"str", n}})
+		}
+	}
 	// datetime items through .string() and .type()
 	for _, s := range []string{"2015-08-01", "12:34:56", "12:34:56.789+05:30", "2015-08-01T12:34:56", "2015-08-01 12:34:56.5-04:00"} {
 		for _, m := range []string{".datetime().string()", ".datetime().type()", ".datetime().string().datetime().string()", ".datetime().size()", ".datetime().double()", ".datetime().boolean()", ".datetime().keyvalue()", ".datetime().abs()"} {
